@@ -267,11 +267,17 @@ def r134(ck, prog):
                   "can_be_casted_to decides whether a diagnostic is emitted",
                   msg="%s: the result of a can_be_casted_to check no longer controls a diagnostic [%s]" % (b.path, b.where(i)))
     ck.floor("R13.4", "can_be_casted_to call sites", n, 30)
-    callers = {b.path for b, i, t in prog.call_sites(lambda c: c == "ide::index::check_template_args")}
+    # every class-reference site reaches check_template_args (directly or through helpers of the indexer)
+    from ..callgraph import callgraph
+    cg = callgraph(prog)
     want = {"ide::index::resolve_class_ref_as_class", "ide::index::resolve_class_ref_as_multiclass",
             "<syntax::ast::SimpleValue as ide::index::Indexable>::index"}
-    ck.ob("R13.4", "template-arg-check-sites", want <= callers, "check_template_args is called from %s" % sorted(callers),
-          msg="check_template_args is no longer called from every class-reference site (missing: %s)" % sorted(want - callers))
+    callers = set()
+    for w in want:
+        if prog.body(w) is not None and "ide::index::check_template_args" in cg.reachable([w], kinds=("call",)):
+            callers.add(w)
+    ck.ob("R13.4", "template-arg-check-sites", want <= callers, "check_template_args is reached from %s" % sorted(callers),
+          msg="check_template_args is no longer reached from every class-reference site (missing: %s)" % sorted(want - callers))
     # every template argument without a default is checked: the 'unsolved' loop reports for each element
     cb = prog.body("ide::index::check_template_args")
     ck.anchor(cb is not None, "check_template_args not found")
